@@ -5,6 +5,7 @@ package main
 
 import (
 	"go/token"
+	"sort"
 	"go/types"
 	"strings"
 
@@ -792,7 +793,7 @@ func ruleR13_4x(p *Program, r *Report, id string) {
 
 func init() {
 	extend("C14", Rule{ID: "R14.6", Configs: "all", Run: ruleR14_6},
-		"(R14.6) the sticky error is consulted before anything can report success: every return of a constant nil error from Write, Flush or Close of the three Writer types is dominated by the edge 'sticky error == nil' (or, for Close, 'sticky error == the closed marker'), so a closed flag or an empty-input shortcut tested earlier cannot hide a recorded failure.")
+		"(R14.6) the sticky error is consulted before anything can report success: every return of a constant nil error from Write, Flush or Close of the three Writer types is dominated by the edge 'sticky error == nil' (or, for Close, a closed flag that is raised only at the very end of a successful Close; a marker value kept in the sticky field itself does not count, since a destination can fail with that value), so a closed flag or an empty-input shortcut tested earlier cannot hide a recorded failure.")
 	extend("C10", Rule{ID: "R10.9", Configs: "all", Run: ruleR10_9},
 		"(R10.9) a flush drains: in the block compressor every return that can report success while a flush is requested is dominated by the edge 'input cursor == end of pending input' (or 'nothing was accumulated'); returns behind '!flush' and returns of a known non-nil error are exempt.")
 	extend("C03", Rule{ID: "R03.9", Configs: "all", Run: ruleR03_9},
@@ -834,8 +835,63 @@ func ruleR14_6(p *Program, r *Report) {
 							if isNil(pr[1]) {
 								okFact = true
 							}
-							if g := globalLoad(pr[1]); g != nil && opn == "Close" {
-								okFact = true // the closed marker kept in the sticky field itself
+							// (a closed marker kept in the sticky field itself is NOT accepted: the field also holds destination
+							// errors, and a destination may fail with that very value - defect #25)
+						}
+					}
+					if !okFact && opn == "Close" {
+						// a closed flag that is raised only at the very end of a successful Close: every store of true to
+						// it is behind the sticky-nil edge and no destination call follows it
+						for _, f := range dominatingFacts(ret) {
+							if f.Y != nil || f.Op != token.EQL {
+								continue
+							}
+							root, sel, isL := fieldLoad(f.X)
+							if !isL || root != recv || !isBoolType(f.X.Type()) {
+								continue
+							}
+							stores, good := 0, true
+							for _, g := range p.Funcs() {
+								for _, gb := range g.Blocks {
+									for _, gin := range gb.Instrs {
+										st, ok := gin.(*ssa.Store)
+										if !ok {
+											continue
+										}
+										r2, s2 := accessPath(st.Addr)
+										if s2 != sel || r2 == nil || derefNamed(r2.Type()) != tr.Named {
+											continue
+										}
+										if b, isB := constBool(st.Val); !isB || !b {
+											continue
+										}
+										stores++
+										if g != fn {
+											good = false
+											continue
+										}
+										behindNil := false
+										for _, f2 := range dominatingFacts(st) {
+											if f2.Op == token.EQL && f2.Y != nil && ((isStickyLoad(f2.X, recv, tr.Sticky) && isNil(f2.Y)) || (isStickyLoad(f2.Y, recv, tr.Sticky) && isNil(f2.X))) {
+												behindNil = true
+											}
+										}
+										after, _, _ := (PathQuery{Start: st, Target: func(x ssa.Instruction) bool {
+											c, ok := x.(ssa.CallInstruction)
+											if !ok {
+												return false
+											}
+											d, _ := p.isDstCall(c)
+											return d
+										}}).Find(fn)
+										if !behindNil || after {
+											good = false
+										}
+									}
+								}
+							}
+							if stores > 0 && good {
+								okFact = true
 							}
 						}
 					}
@@ -1111,6 +1167,1107 @@ func ruleR18_12(p *Program, r *Report) {
 		}
 		if n == 0 {
 			r.Undecided("R18.12", t.Name+"|look-back exit", t.File, "a conditional jump into the errorNoInvalidLookback exit exists", "not found")
+		}
+	}
+}
+
+// ---------------------------------------------------------------- round 5
+
+func init() {
+	extend("C11", Rule{ID: "R11.5", Configs: "all", Run: ruleR11_5},
+		"(R11.5) the inflater waits for input only when the decoder has run out of it: every Peek that can wait is behind the true edge of a boolean receiver field that is assigned nowhere but from constants in the constructor/Reset and from the comparison 'decoder result == errEndInput'; a step that stopped because the output window was full or a block ended goes on with what is buffered (what is left may sit complete in the bit buffer).")
+}
+
+func ruleR11_5(p *Program, r *Report) {
+	r.Expect("R11.5", 1)
+	sp := p.Pkg(flateRel)
+	dn := p.Named(flateRel, "decompressor")
+	if dn == nil {
+		r.Undecided("R11.5", "anchors", "-", "type decompressor exists", "not found")
+		return
+	}
+	// boolean fields of the decompressor whose every store is a constant or `x == errEndInput`
+	starvedField := map[string]bool{}
+	st, _ := dn.Underlying().(*types.Struct)
+	for i := 0; st != nil && i < st.NumFields(); i++ {
+		if isBoolType(st.Field(i).Type()) {
+			starvedField["."+st.Field(i).Name()] = true
+		}
+	}
+	fromCmp := map[string]bool{}
+	for _, fn := range p.Funcs() {
+		if fn.Pkg != sp {
+			continue
+		}
+		for _, b := range fn.Blocks {
+			for _, in := range b.Instrs {
+				s, ok := in.(*ssa.Store)
+				if !ok {
+					continue
+				}
+				root, sel := accessPath(s.Addr)
+				if root == nil || !starvedField[sel] || derefNamed(root.Type()) != dn {
+					continue
+				}
+				if _, isK := constBool(s.Val); isK {
+					continue
+				}
+				good := false
+				if bo, ok := s.Val.(*ssa.BinOp); ok && bo.Op == token.EQL {
+					for _, v := range []ssa.Value{bo.X, bo.Y} {
+						if g := globalLoad(v); g != nil && g.Name() == "errEndInput" {
+							good = true
+						}
+					}
+				}
+				if good {
+					fromCmp[sel] = true
+				} else {
+					starvedField[sel] = false
+				}
+			}
+		}
+	}
+	for _, fn := range p.Funcs() {
+		if fn.Pkg != sp {
+			continue
+		}
+		lab := newLabeler()
+		for _, c := range allCalls(fn) {
+			f := c.Common().StaticCallee()
+			if !isMethodOf(f, "bufio", "Reader", "Peek") {
+				continue
+			}
+			if k, isK := constInt(c.Common().Args[1]); (isK && k <= 0) || peekBuffered(fn, c) {
+				continue
+			}
+			key := shortFn(fn) + "|" + lab.get(calleeLabel(c))
+			ok := false
+			for _, ft := range dominatingFacts(c) {
+				if ft.Y != nil || ft.Op != token.EQL {
+					continue
+				}
+				if _, sel, isL := fieldLoad(ft.X); isL && starvedField[sel] && fromCmp[sel] {
+					ok = true
+				}
+			}
+			r.Check(ok, "R11.5", key, p.InstrPos(c), "the inflater waits for input only after the decoder reported end of input", "this Peek also runs after a step that stopped for another reason (output window full, block end): whatever is left of the stream may sit complete in the bit buffer, yet the Reader waits for another source byte before delivering it - a flushed prefix or the end of the stream is withheld from a source that has nothing more to give")
+		}
+	}
+}
+
+func init() {
+	extend("C04", Rule{ID: "R04.7", Configs: "all", Run: ruleR04_7},
+		"(R04.7) in the block-header parser no verdict 'invalid block' is reached from a call that takes bits (nextBits/readBits) without first passing the test 'bitsLen < 0' (out of input): bits that have not arrived read as zeros, and judging them would turn a header that is merely incomplete into a sticky corrupt-input error whose outcome depends on where the delivery was cut.")
+	extend("C11", Rule{ID: "R11.6", Configs: "all", Run: ruleR04_7}, "(R11.6) = R04.7: a prefix that ends inside a block header must leave the Reader waiting, not failed.")
+	extend("C03", Rule{ID: "R03.10", Configs: "all", Run: ruleR03_10},
+		"(R03.10) the flate Reader's Read reports nothing but what its step reports: every value it stores in the sticky error field or returns as an error is nil, the sticky field itself, or the result of the step call - it invents no error of its own.")
+}
+
+func ruleR04_7(p *Program, r *Report) {
+	id := "R04.7"
+	if r.Prop == "C11" {
+		id = "R11.6"
+	}
+	r.Expect(id, 2)
+	sp := p.Pkg(flateRel)
+	nb := p.Method(flateRel, "inflate", "nextBits")
+	rb := p.Method(flateRel, "inflate", "readBits")
+	if nb == nil && rb == nil {
+		r.Undecided(id, "anchors", "-", "inflate.nextBits / readBits exist", "not found")
+		return
+	}
+	isTake := func(in ssa.Instruction) bool {
+		c, ok := in.(ssa.CallInstruction)
+		if !ok {
+			return false
+		}
+		f := c.Common().StaticCallee()
+		return f != nil && (f == nb || f == rb)
+	}
+	isTest := func(in ssa.Instruction) bool {
+		iff, ok := in.(*ssa.If)
+		if !ok {
+			return false
+		}
+		bo, ok := iff.Cond.(*ssa.BinOp)
+		if !ok {
+			return false
+		}
+		for _, pr := range [][2]ssa.Value{{bo.X, bo.Y}, {bo.Y, bo.X}} {
+			if _, sel, isL := fieldLoad(pr[0]); isL && strings.HasSuffix(sel, "bitsLen") {
+				if k, isK := constInt(pr[1]); isK && k == 0 {
+					return true
+				}
+			}
+		}
+		return false
+	}
+	for _, fn := range p.Funcs() {
+		if fn.Pkg != sp || fn == nb || fn == rb {
+			continue
+		}
+		var takes []ssa.Instruction
+		for _, b := range fn.Blocks {
+			for _, in := range b.Instrs {
+				if isTake(in) {
+					takes = append(takes, in)
+				}
+			}
+		}
+		if len(takes) == 0 {
+			continue
+		}
+		// verdicts: returns whose error operand can be errInvalidBlock / errorNoInvalidBlock produced in this function
+		isVerdict := func(in ssa.Instruction) bool {
+			ret, ok := in.(*ssa.Return)
+			if !ok {
+				return false
+			}
+			e := returnErr(ret)
+			if e == nil {
+				return false
+			}
+			for _, leaf := range p.valueSources(e) {
+				if g := globalLoad(leaf); g != nil && g.Name() == "errInvalidBlock" {
+					return true
+				}
+			}
+			return false
+		}
+		key := shortFn(fn) + "|verdict after taking bits"
+		why := ""
+		// takes whose bits were verified to be there beforehand: dominated by 'bitsLen >= K' with K at least the sum
+		// of the constant widths taken under that same fact
+		prechecked := map[ssa.Instruction]bool{}
+		{
+			type pre struct {
+				k    int64
+				load ssa.Value
+			}
+			byFact := map[ssa.Value][]ssa.Instruction{}
+			kOf := map[ssa.Value]int64{}
+			for _, t := range takes {
+				for _, f := range dominatingFacts(t) {
+					if f.Y == nil || f.Op != token.GEQ {
+						continue
+					}
+					if _, sel, isL := fieldLoad(f.X); !isL || !strings.HasSuffix(sel, "bitsLen") {
+						continue
+					}
+					k, isK := constInt(f.Y)
+					if !isK || k <= 0 {
+						continue
+					}
+					byFact[f.X] = append(byFact[f.X], t)
+					kOf[f.X] = k
+				}
+			}
+			for ld, ts := range byFact {
+				sum := int64(0)
+				okW := true
+				for _, t := range ts {
+					args := t.(ssa.CallInstruction).Common().Args
+					w, isK := constInt(args[len(args)-1])
+					if !isK {
+						okW = false
+					}
+					sum += w
+				}
+				if okW && sum <= kOf[ld] {
+					for _, t := range ts {
+						prechecked[t] = true
+					}
+				}
+			}
+		}
+		for _, t := range takes {
+			if prechecked[t] {
+				continue
+			}
+			if found, hit, path := (PathQuery{Start: t, Target: isVerdict, Barrier: isTest}).Find(fn); found {
+				why = "the return of errInvalidBlock at " + p.InstrPos(hit) + " is reachable from the bit-taking call at " + p.InstrPos(t) + " (blocks " + fmtInts(path) + ") without the test bitsLen < 0: an incomplete header would be judged on bits that have not arrived"
+				break
+			}
+		}
+		r.Check(why == "", id, key, p.Pos(fn.Pos()), "a header field is judged only after the out-of-input test", why)
+	}
+}
+
+func ruleR03_10(p *Program, r *Report) {
+	r.Expect("R03.10", 2)
+	fn := p.Method(flateRel, "decompressor", "Read")
+	st := p.Method(flateRel, "decompressor", "step")
+	if fn == nil || st == nil {
+		r.Undecided("R03.10", "anchors", "-", "decompressor.Read and step exist", "not found")
+		return
+	}
+	recv := fn.Params[0]
+	sticky := ""
+	if dn := p.Named(flateRel, "decompressor"); dn != nil {
+		if s, ok := dn.Underlying().(*types.Struct); ok {
+			if es := structFields(s, isErrorType); len(es) == 1 {
+				sticky = es[0]
+			}
+		}
+	}
+	if sticky == "" {
+		r.Undecided("R03.10", "anchors", "-", "decompressor has one error field", "not found")
+		return
+	}
+	okVal := func(v ssa.Value) (bool, string) {
+		for _, leaf := range p.valueSources(v) {
+			if isNil(leaf) || isStickyLoad(leaf, recv, sticky) {
+				continue
+			}
+			if c, ok := leaf.(*ssa.Call); ok && c.Common().StaticCallee() == st {
+				continue
+			}
+			return false, describeValue(leaf)
+		}
+		return true, ""
+	}
+	lab := newLabeler()
+	for _, b := range fn.Blocks {
+		for _, in := range b.Instrs {
+			switch x := in.(type) {
+			case *ssa.Store:
+				if !isStickyStore(x, recv, sticky) {
+					continue
+				}
+				ok, what := okVal(x.Val)
+				r.Check(ok, "R03.10", shortFn(fn)+"|"+lab.get("store ."+sticky), p.InstrPos(x), "Read records only what step reports", "stores "+what+": an error of the Reader's own making, outside the set the property allows (io.EOF, io.ErrUnexpectedEOF, CorruptInputError, the source's error)")
+			case *ssa.Return:
+				e := returnErr(x)
+				if e == nil {
+					continue
+				}
+				ok, what := okVal(e)
+				r.Check(ok, "R03.10", shortFn(fn)+"|"+lab.get("return"), p.InstrPos(x), "Read returns only what step reports", "returns "+what)
+			}
+		}
+	}
+}
+
+func init() {
+	extend("C01", Rule{ID: "R01.9", Configs: "asm", Run: ruleR01_9},
+		"(R01.9) assembly match finders: every distance symbol they compute (the 5-bit field `ANDQ $31, R` of a token) is counted - an increment of hist.distanceCodes indexed by that register is passed on every path before the register is overwritten or the routine returns; a token whose distance symbol is not in the histogram gets a zero-length code and is emitted as no bits (the assembly analogue of R01.3).")
+}
+
+func ruleR01_9(p *Program, r *Report) {
+	r.Expect("R01.9", 4)
+	if asmLoadFailures(p, r, "R01.9") {
+		return
+	}
+	for _, u := range p.Asm().Units {
+		t := u.Text
+		if !strings.HasPrefix(t.Name, "lz77Asm") {
+			continue
+		}
+		// is instruction i an increment of hist.distanceCodes[reg]?
+		isDistInc := func(i int, reg string) bool {
+			in := t.Instrs[i]
+			if (in.Mnem != "ADDL" && in.Mnem != "INCL" && in.Mnem != "ADDQ") || len(in.Ops) == 0 {
+				return false
+			}
+			op := in.Ops[len(in.Ops)-1]
+			if op.Kind != OpMem || op.Base == "" || baseReg(op.Index) != reg {
+				return false
+			}
+			bv := u.Flow.Before[i][op.Base]
+			T, _, ok := u.typedBase(bv)
+			if !ok {
+				return false
+			}
+			res, err := resolveOffset(p.Sizes, T, op.Off+bv.Disp)
+			return err == nil && strings.HasSuffix(res.FieldSet, "distanceCodes")
+		}
+		lab := newLabeler()
+		n := 0
+		for i, in := range t.Instrs {
+			if !u.Flow.Reach[i] || in.Mnem != "ANDQ" || len(in.Ops) != 2 || in.Ops[0].Kind != OpImm || in.Ops[0].Imm != 31 || in.Ops[1].Kind != OpReg {
+				continue
+			}
+			reg := baseReg(in.Ops[1].Reg)
+			// only symbols that feed the histogram somewhere count as distance symbols
+			n++
+			key := t.Name + "|" + lab.get("distance symbol in "+reg)
+			// search forward: RET or redefinition of reg before an increment indexed by reg
+			seen := map[int]bool{}
+			work := []int{}
+			succ, _ := t.succs(i)
+			work = append(work, succ...)
+			bad := -1
+			for len(work) > 0 && bad < 0 {
+				j := work[len(work)-1]
+				work = work[:len(work)-1]
+				if seen[j] {
+					continue
+				}
+				seen[j] = true
+				x := t.Instrs[j]
+				if isDistInc(j, reg) {
+					continue
+				}
+				if x.Mnem == "RET" {
+					bad = j
+					break
+				}
+				if d := x.dest(); d >= 0 && x.Ops[d].Kind == OpReg && baseReg(x.Ops[d].Reg) == reg {
+					bad = j
+					break
+				}
+				ss, err := t.succs(j)
+				if err != nil {
+					bad = j
+					break
+				}
+				work = append(work, ss...)
+			}
+			pos := t.File + ":" + itoa(in.Line)
+			if bad < 0 {
+				r.OK("R01.9", key, pos, "the distance symbol is counted in hist.distanceCodes on every path")
+			} else {
+				r.Fail("R01.9", key, pos, "the distance symbol is counted in hist.distanceCodes on every path", "line "+itoa(t.Instrs[bad].Line)+" ("+strings.TrimSpace(t.Instrs[bad].Raw)+") is reached first: the token's distance symbol is missing from the histogram, gets no code, and is emitted as zero bits")
+			}
+		}
+		if n == 0 {
+			r.Undecided("R01.9", t.Name+"|distance symbols", t.File, "the match finder computes distance symbols", "no `ANDQ $31, R` found")
+		}
+	}
+}
+
+func init() {
+	extend("C04", Rule{ID: "R04.8", Configs: "all", Run: ruleR04_8},
+		"(R04.8) in the code-length parser a slot of the length array is judged (huffs[K].Length() at a constant K) only where the cursor is known to have passed it - behind 'cursor > K' (or >= K+1), or after the loop has run to the end of the array; judging the end-of-block slot when the cursor has merely reached it turns a header cut at that very byte into 'invalid block'.")
+}
+
+func ruleR04_8(p *Program, r *Report) {
+	r.Expect("R04.8", 1)
+	fn := p.Method(flateRel, "inflate", "readLitDistLens")
+	if fn == nil {
+		r.Undecided("R04.8", "anchors", "-", "inflate.readLitDistLens exists", "not found")
+		return
+	}
+	lab := newLabeler()
+	n := 0
+	for _, c := range allCalls(fn) {
+		f := c.Common().StaticCallee()
+		if f == nil || f.Name() != "Length" || len(c.Common().Args) == 0 {
+			continue
+		}
+		// receiver: huffs[K] (value loaded from, or address of, an element at a constant index)
+		var ia *ssa.IndexAddr
+		switch x := c.Common().Args[0].(type) {
+		case *ssa.UnOp:
+			ia, _ = x.X.(*ssa.IndexAddr)
+		case *ssa.IndexAddr:
+			ia = x
+		}
+		if ia == nil {
+			continue
+		}
+		k, isK := constInt(ia.Index)
+		if !isK {
+			continue
+		}
+		n++
+		key := shortFn(fn) + "|" + lab.get("slot "+itoa(int(k)))
+		ok := false
+		for _, ft := range dominatingFacts(c) {
+			if ft.Y == nil {
+				continue
+			}
+			x, y, op := ft.X, ft.Y, ft.Op
+			if _, isPhi := stripConv(y).(*ssa.Phi); isPhi {
+				x, y = y, x
+				switch op {
+				case token.LSS:
+					op = token.GTR
+				case token.LEQ:
+					op = token.GEQ
+				case token.GTR:
+					op = token.LSS
+				case token.GEQ:
+					op = token.LEQ
+				}
+			}
+			if _, isPhi := stripConv(x).(*ssa.Phi); !isPhi {
+				continue
+			}
+			if kk, isKK := constInt(y); isKK {
+				if (op == token.GTR && kk >= k) || (op == token.GEQ && kk >= k+1) {
+					ok = true
+				}
+				continue
+			}
+			// loop ran to the end: cursor >= len(slice)
+			if cl, isC := y.(*ssa.Call); isC && op == token.GEQ {
+				if bi, isB := cl.Common().Value.(*ssa.Builtin); isB && bi.Name() == "len" && cl.Common().Args[0] == ia.X {
+					ok = true
+				}
+			}
+		}
+		r.Check(ok, "R04.8", key, p.InstrPos(c), "a code-length slot is judged only after the cursor has passed it", "huffs["+itoa(int(k))+"] is examined where the cursor is not known to be beyond "+itoa(int(k))+": when the input ends exactly before that slot's length, the slot still holds zero and an incomplete header is declared invalid")
+	}
+	if n == 0 {
+		r.Undecided("R04.8", shortFn(fn)+"|slots", p.Pos(fn.Pos()), "the parser examines the end-of-block slot", "no huffs[K].Length() found")
+	}
+}
+
+func init() {
+	extend("C08", Rule{ID: "R08.4", Configs: "all", Run: ruleR08_4},
+		"(R08.4) the end of a member stays the end: in the gzip Reader's Read the sticky error is cleared (set to nil) only behind the multistream edge, i.e. only when the Reader goes on to the next member; in single-member mode the recorded io.EOF must survive, otherwise a further Read would take the bytes after the member for a trailer.")
+	extend("C05", Rule{ID: "R05.6", Configs: "all", Run: ruleR08_4}, "(R05.6) = R08.4.")
+	extend("C04", Rule{ID: "R04.9", Configs: "all", Run: ruleR04_9},
+		"(R04.9) when a block header that was staged across deliveries completes, the real input is re-sliced by exactly the bytes the parser took from it: in linear normal form (phis of the staging branch expanded) the offset is 'bytes copied into the staging buffer - bytes left unread in it', and the staging length is 'bytes copied + bytes staged before'.")
+}
+
+func ruleR08_4(p *Program, r *Report) {
+	id := "R08.4"
+	if r.Prop == "C05" {
+		id = "R05.6"
+	}
+	r.Expect(id, 1)
+	var gz *TypeRole
+	for _, tr := range p.ReaderTypes() {
+		if tr.Rel == gzipRel && tr.Ops["Read"] != nil && tr.Sticky != "" {
+			gz = tr
+		}
+	}
+	if gz == nil {
+		r.Undecided(id, "anchors", "-", "gzip.Reader with a sticky error exists", "not found")
+		return
+	}
+	fn := gz.Ops["Read"]
+	recv := fn.Params[0]
+	// the multistream flag: the boolean receiver field tested in Read
+	lab := newLabeler()
+	n := 0
+	for _, b := range fn.Blocks {
+		for _, in := range b.Instrs {
+			st, ok := in.(*ssa.Store)
+			if !ok || !isStickyStore(st, recv, gz.Sticky) || !isNil(st.Val) {
+				continue
+			}
+			n++
+			key := shortFn(fn) + "|" + lab.get("clear ."+gz.Sticky)
+			okFact := false
+			for _, f := range dominatingFacts(st) {
+				if f.Y != nil || f.Op != token.EQL {
+					continue
+				}
+				if root, sel, isL := fieldLoad(f.X); isL && root == recv && isBoolType(f.X.Type()) && strings.Contains(strings.ToLower(sel), "multi") {
+					okFact = true
+				}
+			}
+			r.Check(okFact, id, key, p.InstrPos(st), "the recorded end of a member is cleared only when the Reader continues with the next member", "the sticky error is set to nil where multistream mode is not known: in single-member mode a Read after io.EOF would read on into the bytes after the member")
+		}
+	}
+	if n == 0 {
+		r.Undecided(id, shortFn(fn)+"|clear", p.Pos(fn.Pos()), "Read clears the sticky io.EOF before the next member", "no store of nil found")
+	}
+}
+
+// expandPhi: linear form of v in which a phi with exactly one edge that is not the constant 0 is replaced by
+// that edge (valid where the branch that produced the non-zero edge is known to have been taken).
+func expandPhiLinear(v ssa.Value, depth int) linForm {
+	l := linearize(v)
+	if !l.ok || depth > 3 {
+		return l
+	}
+	out := linForm{terms: map[string]int64{}, k: l.k, ok: true}
+	var phis map[string]*ssa.Phi
+	phis = map[string]*ssa.Phi{}
+	var collect func(x ssa.Value)
+	seen := map[ssa.Value]bool{}
+	collect = func(x ssa.Value) {
+		if x == nil || seen[x] {
+			return
+		}
+		seen[x] = true
+		switch y := x.(type) {
+		case *ssa.Phi:
+			phis["phi:"+y.Name()] = y
+		case *ssa.BinOp:
+			collect(y.X)
+			collect(y.Y)
+		case *ssa.Convert:
+			collect(y.X)
+		case *ssa.UnOp:
+			collect(y.X)
+		}
+	}
+	collect(v)
+	for term, c := range l.terms {
+		phi, isPhi := phis[term]
+		if !isPhi {
+			out.terms[term] += c
+			continue
+		}
+		var nz ssa.Value
+		cnt := 0
+		for _, e := range phi.Edges {
+			if k, isK := constInt(e); isK && k == 0 {
+				continue
+			}
+			nz = e
+			cnt++
+		}
+		if cnt != 1 {
+			out.terms[term] += c
+			continue
+		}
+		sub := expandPhiLinear(nz, depth+1)
+		if !sub.ok {
+			out.terms[term] += c
+			continue
+		}
+		for t2, c2 := range sub.terms {
+			out.terms[t2] += c * c2
+		}
+		out.k += c * sub.k
+	}
+	for t, c := range out.terms {
+		if c == 0 {
+			delete(out.terms, t)
+		}
+	}
+	return out
+}
+
+func ruleR04_9(p *Program, r *Report) {
+	r.Expect("R04.9", 1)
+	fn := p.Method(flateRel, "inflate", "readHeader")
+	if fn == nil {
+		r.Undecided("R04.9", "anchors", "-", "inflate.readHeader exists", "not found")
+		return
+	}
+	// the copy into the staging buffer made before parsing: copy(headerBuffer[headerBuffered:], input[:copySize])
+	var stageCopy *ssa.Call
+	for _, c := range allCalls(fn) {
+		call, ok := c.(*ssa.Call)
+		if !ok {
+			continue
+		}
+		if bi, ok := call.Common().Value.(*ssa.Builtin); ok && bi.Name() == "copy" {
+			if sl, ok := call.Common().Args[1].(*ssa.Slice); ok && sl.High != nil && sl.Low == nil {
+				if _, sel := accessPath(sl.X); strings.HasSuffix(sel, ".input") {
+					stageCopy = call
+				}
+			}
+		}
+	}
+	if stageCopy == nil {
+		r.Undecided("R04.9", shortFn(fn)+"|staging copy", p.Pos(fn.Pos()), "readHeader copies a bounded part of the input behind the staged bytes", "not found")
+		return
+	}
+	copySize := stageCopy.Common().Args[1].(*ssa.Slice).High
+	lcs := linearize(copySize)
+	// the re-slice of the real input after parsing: store .input = X[read:] with X not the staging buffer
+	n := 0
+	for _, b := range fn.Blocks {
+		for _, in := range b.Instrs {
+			st, ok := in.(*ssa.Store)
+			if !ok {
+				continue
+			}
+			if _, sel := accessPath(st.Addr); !strings.HasSuffix(sel, ".input") {
+				continue
+			}
+			sl, ok := st.Val.(*ssa.Slice)
+			if !ok || sl.Low == nil || sl.High != nil {
+				continue
+			}
+			if reach, _, _ := (PathQuery{Start: stageCopy, Target: func(x ssa.Instruction) bool { return x == ssa.Instruction(st) }}).Find(fn); !reach {
+				continue
+			}
+			if _, sel := accessPath(sl.X); strings.HasSuffix(sel, ".headerBuffer") {
+				continue
+			}
+			n++
+			key := shortFn(fn) + "|re-slice after a staged header"
+			got := expandPhiLinear(sl.Low, 0)
+			// expected: copySize - len(.input)
+			want := map[string]int64{}
+			for t, c := range lcs.terms {
+				want[t] += c
+			}
+			lenKey := ""
+			for t := range got.terms {
+				if strings.HasPrefix(t, "len(") && strings.HasSuffix(t, ".input)") {
+					lenKey = t
+				}
+			}
+			if lenKey != "" {
+				want[lenKey]--
+			}
+			same := got.ok && lcs.ok && lenKey != "" && got.k == lcs.k
+			if same {
+				for t, c := range want {
+					if got.terms[t] != c {
+						same = false
+					}
+				}
+				for t, c := range got.terms {
+					if want[t] != c {
+						same = false
+					}
+				}
+			}
+			r.Check(same, "R04.9", key, p.InstrPos(st), "after a staged header completes the real input advances by (bytes copied into the staging buffer - bytes left in it)", "the offset normalises to "+got.String()+", expected "+lcs.String()+" - len(.input): the source would be advanced by the wrong amount - block data re-read or skipped, and the stream end mis-positioned")
+		}
+	}
+	if n == 0 {
+		r.Undecided("R04.9", shortFn(fn)+"|re-slice", p.Pos(fn.Pos()), "readHeader re-slices the real input after a staged header", "not found")
+	}
+}
+
+// ---------------------------------------------------------------- round 6
+
+func init() {
+	extend("C14", Rule{ID: "R14.7", Configs: "all", Run: ruleR14_7},
+		"(R14.7) a temporary narrowing of one of the Writer's own buffers (field = field[:n-k], as the block encoder does around each chunk) is undone on every path to a return, including the return of a destination error - otherwise each failed stream leaves the buffer shorter for the next one after Reset.")
+	extend("C12", Rule{ID: "R12.3", Configs: "all", Run: ruleR14_7}, "(R12.3) = R14.7.")
+	extend("C19", Rule{ID: "R19.5", Configs: "all", Run: ruleR19_5},
+		"(R19.5) the 4 KiB constructor hands a level to compress/flate (which has no small-window mode) only behind the edge level == NoCompression.")
+	extend("C16", Rule{ID: "R16.5", Configs: "all", Run: ruleR16_5},
+		"(R16.5) level dispatch of the flate constructors: a call that builds an accelerated compressor is reachable only for the levels the accelerated compressors exist for - behind equality edges of the level with 1, 2 or HuffmanOnly (DefaultCompression having been mapped to 2), never on a default arm that an out-of-range level such as -3 or 10 would also take; such levels must reach compress/flate's constructor, which rejects them.")
+}
+
+func ruleR14_7(p *Program, r *Report) {
+	id := "R14.7"
+	if r.Prop == "C12" {
+		id = "R12.3"
+	}
+	r.Expect(id, 1)
+	sp := p.Pkg(deflRel)
+	n := 0
+	for _, fn := range p.Funcs() {
+		if fn.Pkg != sp {
+			continue
+		}
+		lab := newLabeler()
+		for _, b := range fn.Blocks {
+			for _, in := range b.Instrs {
+				st, ok := in.(*ssa.Store)
+				if !ok {
+					continue
+				}
+				root, sel := accessPath(st.Addr)
+				if root == nil || sel == "" {
+					continue
+				}
+				sl, ok := st.Val.(*ssa.Slice)
+				if !ok || sl.High == nil || sl.Low != nil {
+					continue
+				}
+				r2, s2, isL := fieldLoad(sl.X)
+				if !isL || r2 != root || s2 != sel {
+					continue
+				}
+				// narrowing: the new bound is len(field) minus a positive constant
+				lh := linearize(sl.High)
+				narrowing := false
+				if lh.ok && lh.k < 0 {
+					narrowing = true
+				}
+				if !narrowing {
+					continue
+				}
+				n++
+				key := shortFn(fn) + "|" + lab.get("narrow "+sel)
+				found, hit, path := PathQuery{Start: st,
+					Target: func(x ssa.Instruction) bool { _, ok := x.(*ssa.Return); return ok },
+					Barrier: func(x ssa.Instruction) bool {
+						s2, ok := x.(*ssa.Store)
+						if !ok || s2 == st {
+							return false
+						}
+						rr, ss := accessPath(s2.Addr)
+						return rr == root && ss == sel
+					}}.Find(fn)
+				why := ""
+				if found {
+					why = "the return at " + p.InstrPos(hit) + " is reachable (blocks " + fmtInts(path) + ") with " + sel + " still narrowed: the Writer keeps a shorter buffer after this call"
+				}
+				r.Check(!found, id, key, p.InstrPos(st), "a buffer narrowed for the duration of a step is restored before every return", why)
+			}
+		}
+	}
+	if n == 0 {
+		r.Undecided(id, "narrowing stores", "-", "the block encoder narrows its output buffer around each chunk", "no store field = field[:len-k] found")
+	}
+}
+
+func ruleR19_5(p *Program, r *Report) {
+	r.Expect("R19.5", 1)
+	var ctor *ssa.Function
+	for _, fn := range p.Funcs() {
+		if fn.Pkg == p.Pkg(deflRel) && strings.Contains(fn.Name(), "4KWindow") {
+			ctor = fn
+		}
+	}
+	if ctor == nil {
+		r.Undecided("R19.5", "anchors", "-", "the 4 KiB constructor exists", "not found")
+		return
+	}
+	level := ctor.Params[1]
+	noComp, _ := constOf(p, deflRel, "NoCompression")
+	lab := newLabeler()
+	n := 0
+	for _, c := range allCalls(ctor) {
+		f := c.Common().StaticCallee()
+		if !(isFunc(f, stdFlate, "NewWriter") || isFunc(f, stdFlate, "NewWriterDict")) {
+			continue
+		}
+		n++
+		key := shortFn(ctor) + "|" + lab.get("delegation")
+		ok := false
+		for _, ft := range dominatingFacts(c) {
+			if ft.Y == nil || ft.Op != token.EQL {
+				continue
+			}
+			for _, pr := range [][2]ssa.Value{{ft.X, ft.Y}, {ft.Y, ft.X}} {
+				if k, isK := constInt(pr[1]); isK && k == noComp {
+					for _, leaf := range p.valueSources(pr[0]) {
+						if leaf == ssa.Value(level) {
+							ok = true
+						}
+					}
+				}
+			}
+		}
+		r.Check(ok, "R19.5", key, p.InstrPos(c), "the 4 KiB constructor delegates to compress/flate only for NoCompression", "levels other than NoCompression can reach compress/flate here, which looks back up to 32768 bytes")
+	}
+	if n == 0 {
+		r.OK("R19.5", shortFn(ctor)+"|no delegation", p.Pos(ctor.Pos()), "the 4 KiB constructor never delegates to compress/flate")
+	}
+}
+
+func ruleR16_5(p *Program, r *Report) {
+	r.Expect("R16.5", 2)
+	huff, _ := constOf(p, deflRel, "HuffmanOnly")
+	sp := p.Pkg(deflRel)
+	for _, fn := range p.Funcs() {
+		if fn.Pkg != sp || !strings.HasPrefix(fn.Name(), "NewWriter") || len(fn.Params) < 2 || strings.Contains(fn.Name(), "4KWindow") {
+			continue
+		}
+		var level *ssa.Parameter
+		for _, prm := range fn.Params {
+			if prm.Name() == "level" {
+				level = prm
+			}
+		}
+		if level == nil {
+			continue
+		}
+		lab := newLabeler()
+		for _, c := range allCalls(fn) {
+			f := c.Common().StaticCallee()
+			if f == nil || !p.InRepo(f) || !(f.Name() == "NewDynCompressor" || f.Name() == "NewHuffmanOnly" || f == p.Func(deflRel, "NewDynCompressor") || f == p.Func(deflRel, "NewHuffmanOnly")) {
+				continue
+			}
+			key := shortFn(fn) + "|" + lab.get(f.Name())
+			// the block of the call must be reachable only through edges that pin the level to 1, 2 or HuffmanOnly:
+			// every predecessor edge chain from the entry passes an equality edge on the level with one of those constants
+			okAll := pinnedLevel(p, fn, c, level, map[int64]bool{1: true, 2: true, huff: true})
+			r.Check(okAll, "R16.5", key, p.InstrPos(c), "an accelerated compressor is built only for levels 1, 2 and HuffmanOnly", "this constructor call is reachable for other level values (a default arm or a range test): an out-of-range level would be accepted where compress/flate rejects it")
+		}
+	}
+}
+
+// pinnedLevel: no path from the entry to `at` avoids every true edge of `level' == k` (k in allowed), where level'
+// is the level parameter or the phi that maps DefaultCompression to a constant.
+func pinnedLevel(p *Program, fn *ssa.Function, at ssa.Instruction, level *ssa.Parameter, allowed map[int64]bool) bool {
+	isLevel := func(v ssa.Value) bool {
+		for _, leaf := range p.valueSources(v) {
+			if leaf == ssa.Value(level) {
+				return true
+			}
+		}
+		return false
+	}
+	edgeOK := func(a, b *ssa.BasicBlock) bool {
+		br, ok := edgeCond(a, b)
+		if !ok {
+			return true
+		}
+		f, ok := branchFact(br)
+		if !ok || f.Y == nil || f.Op != token.EQL {
+			return true
+		}
+		for _, pr := range [][2]ssa.Value{{f.X, f.Y}, {f.Y, f.X}} {
+			if k, isK := constInt(pr[1]); isK && allowed[k] && isLevel(pr[0]) {
+				return false // a pinning edge: paths through it are fine, so cut them from the search
+			}
+		}
+		return true
+	}
+	found, _, _ := PathQuery{Target: func(x ssa.Instruction) bool { return x == at }, EdgeOK: edgeOK}.Find(fn)
+	return !found
+}
+
+func init() {
+	extend("C12", Rule{ID: "R12.4", Configs: "all", Run: ruleR12_4},
+		"(R12.4) the scratch-table line that exempts huffmanOnly.hist from Reset ('rebuilt from the block's bytes before use') is itself checked: in the functions reachable from huffmanOnly.encodeBlock every counting increment of hist.literalCodes is preceded, on every path from that function's entry, by the clearing of the literal counters (a zeroing loop or whole-array store), so counts or code words left by an earlier block - one that failed, for instance - cannot leak into the next stream.")
+}
+
+func ruleR12_4(p *Program, r *Report) {
+	r.Expect("R12.4", 1)
+	eb := p.Method(deflRel, "huffmanOnly", "encodeBlock")
+	if eb == nil {
+		r.Undecided("R12.4", "anchors", "-", "huffmanOnly.encodeBlock exists", "not found")
+		return
+	}
+	isLitCounter := func(addr ssa.Value) bool {
+		ia, ok := addr.(*ssa.IndexAddr)
+		if !ok {
+			return false
+		}
+		_, sel := accessPath(ia.X)
+		return strings.HasSuffix(sel, "literalCodes") || strings.HasSuffix(sel, "literalCodes[*]") || strings.Contains(sel, "literalCodes")
+	}
+	n := 0
+	seenFn := map[*ssa.Function]bool{}
+	fns := []*ssa.Function{eb}
+	for _, rc := range p.regionCalls(eb) {
+		if h := rc.call.Common().StaticCallee(); h != nil && h.Blocks != nil && p.InRepo(h) && h.Pkg == eb.Pkg {
+			fns = append(fns, h)
+		}
+	}
+	for _, g := range fns {
+		if g == nil || seenFn[g] {
+			continue
+		}
+		seenFn[g] = true
+		clears := func(x ssa.Instruction) bool {
+			st, ok := x.(*ssa.Store)
+			if !ok {
+				return false
+			}
+			if isLitCounter(st.Addr) {
+				k, isK := constInt(st.Val)
+				return isK && k == 0
+			}
+			// whole-array / whole-struct zero store
+			if _, sel := accessPath(st.Addr); strings.HasSuffix(sel, "literalCodes") || strings.HasSuffix(sel, ".hist") || strings.HasSuffix(sel, "hist^") {
+				if _, isC := st.Val.(*ssa.Const); isC {
+					return true
+				}
+			}
+			// a call to the histogram's own reset
+			return false
+		}
+		clearCall := func(x ssa.Instruction) bool {
+			c, ok := x.(ssa.CallInstruction)
+			if !ok {
+				return false
+			}
+			f := c.Common().StaticCallee()
+			return f != nil && f.Name() == "reset" && f.Signature.Recv() != nil && isNamedType(f.Signature.Recv().Type(), modPath+"/"+deflRel, "histogram")
+		}
+		barrier := loopAware(g, func(x ssa.Instruction) bool { return clears(x) || clearCall(x) })
+		lab := newLabeler()
+		for _, b := range g.Blocks {
+			for _, in := range b.Instrs {
+				st, ok := in.(*ssa.Store)
+				if !ok || !isLitCounter(st.Addr) {
+					continue
+				}
+				// an increment: value = load(same addr) + 1
+				bo, ok := st.Val.(*ssa.BinOp)
+				if !ok || bo.Op != token.ADD {
+					continue
+				}
+				ld, ok := bo.X.(*ssa.UnOp)
+				if !ok {
+					continue
+				}
+				// go/ssa does no CSE: the load and the store compute the element address separately
+				la, ok1 := ld.X.(*ssa.IndexAddr)
+				sa, ok2 := st.Addr.(*ssa.IndexAddr)
+				if !(ld.X == st.Addr || (ok1 && ok2 && la.X == sa.X && la.Index == sa.Index)) {
+					continue
+				}
+				n++
+				key := shortFn(g) + "|" + lab.get("count literal")
+				found, _, path := PathQuery{Target: func(x ssa.Instruction) bool { return x == ssa.Instruction(st) }, Barrier: barrier}.Find(g)
+				why := ""
+				if found {
+					why = "the increment is reachable from the entry of " + g.Name() + " (blocks " + fmtInts(path) + ") without the literal counters having been cleared: whatever an earlier block left in the histogram is counted on top"
+				}
+				r.Check(!found, "R12.4", key, p.InstrPos(st), "literal counting starts from cleared counters", why)
+			}
+		}
+	}
+	if n == 0 {
+		r.Undecided("R12.4", shortFn(eb)+"|counting", p.Pos(eb.Pos()), "the Huffman-only encoder counts its block's literals", "no increment of hist.literalCodes found in the region of encodeBlock")
+	}
+}
+
+func init() {
+	extend("C18", Rule{ID: "R18.13", Configs: "asm", Run: ruleR18_13},
+		"(R18.13) the generated assembly match finders agree with one another: every lz77Asm* routine has the same number of increments of hist.distanceCodes, of hist.literalCodes, and of stores into the token array as its siblings of the same generation (they come from one template; a variant edited by hand - the only one a given CPU runs - would differ).")
+	extend("C01", Rule{ID: "R01.10", Configs: "asm", Run: ruleR18_13}, "(R01.10) = R18.13.")
+}
+
+func ruleR18_13(p *Program, r *Report) {
+	id := "R18.13"
+	if r.Prop == "C01" {
+		id = "R01.10"
+	}
+	r.Expect(id, 4)
+	if asmLoadFailures(p, r, id) {
+		return
+	}
+	type census struct{ dist, lit, tok int }
+	byGen := map[string]map[string]census{} // generation (V1/V3/V4) -> routine -> census
+	for _, u := range p.Asm().Units {
+		t := u.Text
+		if !strings.HasPrefix(t.Name, "lz77Asm") {
+			continue
+		}
+		gen := t.Name[len(t.Name)-2:]
+		var c census
+		// token cursor: the register loaded from the tokens slice pointer slot
+		for i, in := range t.Instrs {
+			if !u.Flow.Reach[i] || len(in.Ops) == 0 {
+				continue
+			}
+			op := in.Ops[len(in.Ops)-1]
+			d := in.dest()
+			if d < 0 || in.Ops[d].Kind != OpMem || op.Base == "" {
+				continue
+			}
+			bv := u.Flow.Before[i][op.Base]
+			if T, _, ok := u.typedBase(bv); ok {
+				if res, err := resolveOffset(p.Sizes, T, op.Off+bv.Disp); err == nil && (in.Mnem == "ADDL" || in.Mnem == "INCL") {
+					if strings.HasSuffix(res.FieldSet, "distanceCodes") {
+						c.dist++
+					} else if strings.HasSuffix(res.FieldSet, "literalCodes") {
+						c.lit++
+					}
+				}
+				continue
+			}
+			// a store through a pointer that came from the tokens argument
+			if bv.Kind == AArg {
+				if sl := u.slotAt(bv.ArgOff); sl != nil && strings.HasPrefix(sl.Name, "tokens") && (in.Mnem == "MOVL" || in.Mnem == "MOVQ") {
+					c.tok++
+				}
+			}
+		}
+		if byGen[gen] == nil {
+			byGen[gen] = map[string]census{}
+		}
+		byGen[gen][t.Name] = c
+	}
+	for gen, m := range byGen {
+		// majority census
+		cnt := map[census]int{}
+		for _, c := range m {
+			cnt[c]++
+		}
+		var maj census
+		best := 0
+		for c, n := range cnt {
+			if n > best {
+				maj, best = c, n
+			}
+		}
+		var names []string
+		for n := range m {
+			names = append(names, n)
+		}
+		sort.Strings(names)
+		for _, n := range names {
+			c := m[n]
+			why := ""
+			if c != maj {
+				why = "this routine has " + itoa(c.dist) + " distance-histogram increments, " + itoa(c.lit) + " literal/length-histogram increments and " + itoa(c.tok) + " token stores; its " + itoa(best) + " siblings of generation " + gen + " have " + itoa(maj.dist) + "/" + itoa(maj.lit) + "/" + itoa(maj.tok) + ": a token emitted without its histogram count gets no Huffman code"
+			}
+			r.Check(why == "", id, n+"|census", u0pos(p, n), "the routine counts and emits tokens as often as its generated siblings", why)
+		}
+	}
+}
+
+func u0pos(p *Program, name string) string {
+	for _, u := range p.Asm().Units {
+		if u.Text.Name == name {
+			return u.Text.File + ":" + itoa(u.Text.Line)
+		}
+	}
+	return "-"
+}
+
+func init() {
+	extend("C10", Rule{ID: "R10.10", Configs: "all", Run: ruleR10_10},
+		"(R10.10) run lengths handed to the block-header run-length encoders (zeroRepeat / numRepeat) are never computed in an 8-bit type: a header can contain a run of 256 or more equal code lengths (a block without literals), and a wrapped count leaves the header short of code lengths.")
+	extend("C01", Rule{ID: "R01.11", Configs: "all", Run: ruleR10_10}, "(R01.11) = R10.10.")
+}
+
+func ruleR10_10(p *Program, r *Report) {
+	id := "R10.10"
+	if r.Prop == "C01" {
+		id = "R01.11"
+	}
+	r.Expect(id, 2)
+	targets := map[*ssa.Function]int{} // callee -> index of the run-length argument
+	for _, name := range []string{"zeroRepeat", "numRepeat"} {
+		if f := p.Method(deflRel, "dynamicHeader", name); f != nil {
+			// the run length is the last int parameter
+			for i := len(f.Params) - 1; i >= 1; i-- {
+				if intSize(f.Params[i].Type()) == 8 || intSize(f.Params[i].Type()) == 4 {
+					targets[f] = i
+					break
+				}
+			}
+		}
+	}
+	if len(targets) == 0 {
+		r.Undecided(id, "anchors", "-", "dynamicHeader.zeroRepeat / numRepeat exist", "not found")
+		return
+	}
+	for _, fn := range p.Funcs() {
+		lab := newLabeler()
+		for _, c := range allCalls(fn) {
+			g := c.Common().StaticCallee()
+			idx, ok := targets[g]
+			if !ok || g == fn || idx >= len(c.Common().Args) {
+				continue
+			}
+			key := shortFn(fn) + "|" + lab.get(g.Name()+" run length")
+			narrow := ""
+			seen := map[ssa.Value]bool{}
+			var walk func(v ssa.Value, d int)
+			walk = func(v ssa.Value, d int) {
+				if v == nil || seen[v] || d > 8 || narrow != "" {
+					return
+				}
+				seen[v] = true
+				if intSize(v.Type()) == 1 {
+					if _, isK := v.(*ssa.Const); !isK {
+						narrow = describeValue(v) + " is " + v.Type().String()
+						return
+					}
+				}
+				switch x := v.(type) {
+				case *ssa.Convert:
+					walk(x.X, d+1)
+				case *ssa.Phi:
+					for _, e := range x.Edges {
+						walk(e, d+1)
+					}
+				case *ssa.BinOp:
+					if x.Op == token.ADD || x.Op == token.SUB {
+						walk(x.X, d+1)
+						walk(x.Y, d+1)
+					}
+				}
+			}
+			walk(c.Common().Args[idx], 0)
+			r.Check(narrow == "", id, key, p.InstrPos(c), "a run length of code lengths is counted in a type that can hold the whole alphabet", "the count passes through an 8-bit value ("+narrow+"): a run of 256 equal lengths wraps to 0")
 		}
 	}
 }
